@@ -246,7 +246,21 @@ def run(run):
     for ck in C04.check_crossval(run, E4, pid='C05'):
         fails += ck.failed
     finish_engine(E4, run)
+    # bootstrap-wrapped cross-validation: the folds inside a bootstrap sample come from sets_k_fold with the CALLER'S rdm and
+    # pattern descriptors (whole groups stay on one side of a fold), contract shared with C04
+    E4b = C04.engine_cv(run)
+    for ck in C04.check_internal_cv(run, E4b, pid='C05'):
+        fails += ck.failed
+    finish_engine(E4b, run)
     finish_engine(E, run)
+    # callee contract of the RDM-wise generators: they hand out RDMs.subset(rdm_descriptor, values), assumed above to be the
+    # selection of exactly the RDMs carrying a requested value (also on resampled data whose 'index' has repeats and gaps).
+    # The contract C10 generates for RDMs.subset is discharged in this run too (own engine: it executes the body).
+    from contracts import C10
+    E10 = new_engine(run)
+    for ck in C10.check_subset(run, E10, pid='C05'):
+        fails += ck.failed
+    finish_engine(E10, run)
     bds = [tier_c_folds(run, run.tier == 'thorough'), tier_c_noninterference(run, run.tier == 'thorough')]
     report_a_failures(run, fails, bds)
 
@@ -275,7 +289,7 @@ import itertools
 import numpy as np
 from vf.rt.harness import oracle, Bounded, replay_file, close
 
-_SPEC_KEYS = ('container', 'dtype', 'scale', 'nan', 'off')
+_SPEC_KEYS = ('container', 'dtype', 'scale', 'nan', 'off', 'resampled')
 
 
 def _spec_of(case):
@@ -307,8 +321,14 @@ def _mk_rdms(n_rdm, n_cond, rgroups, pgroups, container='list', spec=None):
         vec = vec.astype(spec['dtype'])
     container = spec.get('container', container)
     c = np.array if container == 'array' else (tuple if container == 'tuple' else list)
-    return RDMs(vec, rdm_descriptors={'rid': c(range(n_rdm)), 'rg': c(rgroups)},
-                pattern_descriptors={'cid': c(range(n_cond)), 'pg': c(pgroups)})
+    out = RDMs(vec, rdm_descriptors={'rid': c(range(n_rdm)), 'rg': c(rgroups)},
+               pattern_descriptors={'cid': c(range(n_cond)), 'pg': c(pgroups)})
+    if spec.get('resampled'):
+        # an object as it comes out of a bootstrap / subset: its 'index' descriptors are the group labels of the case (repeats
+        # and gaps, not the positions 0..n-1)
+        out.rdm_descriptors['index'] = c(rgroups)
+        out.pattern_descriptors['index'] = c(pgroups)
+    return out
 
 
 def _source_intact(rdms, n_rdm, n_cond, rg, pg, spec=None):
@@ -790,6 +810,10 @@ def tier_c_folds(run, thorough):
                     rk(dict(b, k=None), 'of_k_rdm')        # default group size (k=5 in the signature)
                     if not desc:
                         rk(dict(b, k=None), 'of_k_pattern')
+    # (3b) default descriptors on RESAMPLED objects: 'index' has repeats and gaps (values are not positions)
+    for rg, pg in (([4, 4, 0, 2, 2, 2], [3, 0, 0, 5, 6, 6, 1]), ([1, 5, 5, 3], [2, 2, 7, 4, 4]), ([2, 0, 2, 0, 6], [1, 3, 5, 7])):
+        base = dict(n_rdm=len(rg), n_cond=len(pg), rg=rg, pg=pg, desc='default', resampled=True)
+        _all_gens(base, lambda case, gen: None if gen == 'of_k_pattern' else reg_as('default-descriptors,resampled-index')(case, gen), both)
     if True:   # repaired in /repo 99da527e (was pending triage): of_k_pattern,default-pattern-descriptor-is-None
         # sets_of_k_pattern(rdms, k=2): the default pattern_descriptor=None is passed to add_pattern_index, which no longer
         # replaces None by 'index' (its docstring says it does) -> KeyError: None for every input
@@ -1042,6 +1066,15 @@ def orc_noninterference_boot(case):
     res0, log0 = run_bcv(base, rec_fitter)
     if not log0:
         return None          # no bootstrap sample allowed the requested cross-validation: nothing was fitted
+    # whole groups: a bootstrap sample consists of whole RDM / condition groups, and the folds inside it split by the caller's
+    # descriptors -- so the training data of every fit hold either all members of a group or none
+    for j, (_, rids, cids) in enumerate(log0):
+        for nm, got, grp in (('RDMs', set(rids), rg), ('conditions', set(cids), pg)):
+            for x in sorted(got):
+                mates = {y for y in range(len(grp)) if grp[y] == grp[x]}
+                if not mates <= got:
+                    return (f'fit {j}: the training data hold {nm} {sorted(got)}; group {grp[x]!r} = {sorted(mates)} is split '
+                            f'(members {sorted(mates - got)} are missing, i.e. on the test side or dropped)')
     i = case['fit'] % len(log0)
     th0, tr_r, tr_c = log0[i]
     tr_r, tr_c = set(tr_r), set(tr_c)
